@@ -1,5 +1,7 @@
 import AFProofs.Lemmas.ParEval
 import AFProofs.Lemmas.ParEvalLive
+import AFProofs.Lemmas.ParEvalFair
+import AFProofs.Lemmas.ParLife
 
 /-!
 # C14 — parallel evaluation equals serial evaluation
@@ -171,6 +173,98 @@ theorem legacy_map_misordered :
       serial [Res.ok 0, Res.ok 1] = ⟨[0, 1], none⟩ :=
   ⟨[0, 0, 2, 2, 0, 0, 1, 1, 0], by decide⟩
 
+/-! ## Termination of `SneakyPool.map` under every fair schedule
+
+`fairRounds P evs` counts the complete *fair rounds* of the schedule `evs`: stretches in which each of the `P + 1`
+actors (caller, workers) gets at least one turn, in any order and multiplicity.  That is the only hypothesis on
+the scheduler.  Which steps need it: a worker that holds work must get turns (otherwise its job is never
+performed: `map_starved_worker_never_finishes`), and the caller must get turns to submit and to poll; the caller's
+polling of *empty* result queues is the only unproductive step, and at most `P - 1` of them happen in a row
+before the cursor stands at a non-empty queue (`MapSt.dist`). -/
+
+/-- **Variant.** `phi = P * (queue interactions still to happen) + (empty result queues the polling cursor has
+to pass)`.  No step of any actor increases it — after any schedule prefix, for any continuation. -/
+theorem map_variant_never_increases (ws : List (Worker α)) (js : List (Res α)) (evs evs2 : List Nat)
+    (hq : Quiescent ws) (hp : ws ≠ []) :
+    ((initMap ws js).run (evs ++ evs2)).phi ≤ ((initMap ws js).run evs).phi := by
+  have hi := mapInv_init ws js hq hp
+  have hc : (initMap ws js).cursor < (initMap ws js).ws.length := hi.pos
+  rw [MapSt.run_append]
+  exact phi_run_le evs2 _ (mapInv_run hi evs) (cursor_lt_run hi.pos hc evs)
+
+/-- **Every fair round makes progress.** After any schedule prefix, while the caller has not collected its
+batch, any stretch of schedule in which every actor gets a turn strictly decreases the variant. -/
+theorem map_fair_round_decreases_variant (ws : List (Worker α)) (js : List (Res α)) (evs r : List Nat)
+    (hq : Quiescent ws) (hp : ws ≠ []) (hf : ((initMap ws js).run evs).finished = false)
+    (hr : ∀ a ∈ List.range (ws.length + 1), a ∈ r) :
+    ((initMap ws js).run (evs ++ r)).phi < ((initMap ws js).run evs).phi := by
+  have hi := mapInv_init ws js hq hp
+  have hc : (initMap ws js).cursor < (initMap ws js).ws.length := hi.pos
+  rw [MapSt.run_append]
+  refine fair_round_decreases (mapInv_run hi evs) (cursor_lt_run hi.pos hc evs) hf r ?_
+  rw [MapSt.run_length]
+  simpa [initMap] using hr
+
+/-- **Termination with a computed bound.** Every schedule that contains `4·n·P + 1` fair rounds (`n` inputs,
+`P` workers) — whatever else it contains, in whatever order — makes `map` collect its whole batch; what it then
+returns is the serial result and nothing is left in any queue. -/
+theorem map_terminates_under_every_fair_schedule (ws : List (Worker α)) (js : List (Res α)) (evs : List Nat)
+    (hq : Quiescent ws) (hp : ws ≠ []) (hfair : mapRoundBound ws.length js.length ≤ fairRounds ws.length evs) :
+    ((initMap ws js).run evs).finished = true ∧ ((initMap ws js).run evs).output = serial js ∧
+      leftover ((initMap ws js).run evs).ws = 0 := by
+  have hi := mapInv_init ws js hq hp
+  have hc : (initMap ws js).cursor < (initMap ws js).ws.length := hi.pos
+  have hl : (initMap ws js).ws.length = ws.length := by simp [initMap]
+  have hfin : ((initMap ws js).run evs).finished = true := by
+    rcases fair_rounds_finish ws.length _ (initMap ws js) evs hi hc hl hfair with h | h
+    · exact h
+    · rw [phi_init ws js hq] at h
+      unfold mapRoundBound at h
+      omega
+  exact ⟨hfin, map_equals_serial ws js evs hq hp hfin, (map_no_leftover ws js evs hq hp hfin).2.1⟩
+
+/-- once `map` has collected its batch nothing any actor does changes that (so "within the bound" is "at the
+bound and ever after") -/
+theorem map_finished_is_stable (ws : List (Worker α)) (js : List (Res α)) (evs evs2 : List Nat)
+    (hf : ((initMap ws js).run evs).finished = true) : ((initMap ws js).run (evs ++ evs2)).finished = true := by
+  rw [MapSt.run_append]
+  exact finished_run hf evs2
+
+/-- the function the driver executes for the fairness clause (`mapExact`: the schedule and nothing after it) -/
+theorem mapExact_fair_spec (ws : List (Worker α)) (js : List (Res α)) (sched : List Nat)
+    (hq : Quiescent ws) (hp : ws ≠ []) (hfair : mapRoundBound ws.length js.length ≤ fairRounds ws.length sched) :
+    (mapExact ws js sched).finished = true ∧ (mapExact ws js sched).output = serial js :=
+  ⟨(map_terminates_under_every_fair_schedule ws js sched hq hp hfair).1,
+   (map_terminates_under_every_fair_schedule ws js sched hq hp hfair).2.1⟩
+
+/-- **Fairness is needed** (towards workers): two workers, two inputs; a schedule that never serves the second
+worker never lets `map` return, however long it is. -/
+theorem map_starved_worker_never_finishes (evs : List Nat) (h : 2 ∉ evs) :
+    ((initMap (newPool 2) [Res.ok (0 : Nat), Res.ok 1]).run evs).finished = false := by
+  cases hf : ((initMap (newPool 2) [Res.ok (0 : Nat), Res.ok 1]).run evs).finished with
+  | false => rfl
+  | true =>
+    exfalso
+    have hq : Quiescent (newPool 2 : List (Worker Nat)) := by
+      intro w hw
+      simp only [newPool, List.mem_replicate] at hw
+      rw [hw.2]
+      exact ⟨rfl, rfl, rfl⟩
+    have hp : (newPool 2 : List (Worker Nat)) ≠ [] := by decide
+    have hlen := MapSt.run_length (initMap (newPool 2) [Res.ok (0 : Nat), Res.ok 1]) evs
+    have hl : 1 < ((initMap (newPool 2) [Res.ok (0 : Nat), Res.ok 1]).run evs).ws.length := by
+      rw [hlen]; decide
+    have hk := List.getElem?_eq_getElem hl
+    have hlog := map_worker_log (newPool 2) [Res.ok (0 : Nat), Res.ok 1] evs hq hp hf 1 _ hk
+    have hun := performed_unchanged (initMap (newPool 2) [Res.ok (0 : Nat), Res.ok 1]) 1 evs h
+    rw [hk] at hun
+    have h0 : (initMap (newPool 2) [Res.ok (0 : Nat), Res.ok 1]).ws[1]?.map Worker.performed = some [] := by decide
+    rw [h0] at hun
+    simp only [Option.map_some, Option.some.injEq] at hun
+    rw [hun] at hlog
+    revert hlog
+    decide
+
 /-! ## `Process.run_jobs` -/
 
 /-- **Results keyed by job.** With the exception counted once, whatever the schedule (stale `empty()`
@@ -267,6 +361,108 @@ theorem legacy_runjobs_stale_empty_never_returns (evs : List Ev) :
   rw [e]
   exact this.1
 
+/-! ## Start-up and shutdown of the pools
+
+`SneakyPool.__init__` starts `P` processes that block on their empty job queues (`newPool P`);
+`SneakyPool.__del__` sends each process one `StopCommand` and joins with a timeout (`initDel`, `DelSt.step`).
+The `map` theorems say a pool is quiescent whenever `map` has returned *or raised*; the theorems below start
+from there, for every schedule of the `__del__` phase. -/
+
+/-- a freshly started pool: `P` workers, nothing queued anywhere (the state `map` assumes) -/
+theorem pool_startup_quiescent (P : Nat) :
+    Quiescent (newPool P : List (Worker α)) ∧ (newPool P : List (Worker α)).length = P := by
+  refine ⟨?_, by simp [newPool]⟩
+  intro w hw
+  simp only [newPool, List.mem_replicate] at hw
+  rw [hw.2]
+  exact ⟨rfl, rfl, rfl⟩
+
+/-- **No result is left behind at process level.** From a quiescent pool, at every point of every schedule of
+the shutdown no job and no result is on any queue or held by any worker: the only things ever queued are
+`StopCommand`s. -/
+theorem shutdown_leaves_no_result (ws : List (Worker α)) (hq : Quiescent ws) (evs : List Nat) :
+    ((initDel ws).run evs).results = 0 ∧
+      ∀ l ∈ ((initDel ws).run evs).ws, l.w.jobQ = [] ∧ l.w.hold = none ∧ l.w.resQ = [] := by
+  have hi := delInv_run (delInv_init ws hq) evs
+  have hall : ∀ l ∈ ((initDel ws).run evs).ws, l.w.jobQ = [] ∧ l.w.hold = none ∧ l.w.resQ = [] := by
+    intro l hl
+    obtain ⟨k, hk, hkl⟩ := List.mem_iff_getElem.mp hl
+    have := hi.each k l (by rw [List.getElem?_eq_getElem hk, hkl])
+    exact ⟨this.1, this.2.1, this.2.2.1⟩
+  exact ⟨results_zero_of _ (fun l hl => ⟨(hall l hl).2.1, (hall l hl).2.2⟩), hall⟩
+
+/-- **One `StopCommand` per process**, at every point of every schedule: process `k` has one queued exactly
+when it has been sent and has not yet taken it; a process has left only by taking its own. -/
+theorem shutdown_one_stop_per_process (ws : List (Worker α)) (hq : Quiescent ws) (evs : List Nat)
+    (k : Nat) (l : LWorker α) (hk : ((initDel ws).run evs).ws[k]? = some l) :
+    l.stops + (if l.alive = true then 0 else 1) = (if k < ((initDel ws).run evs).sent then 1 else 0) ∧
+      ((initDel ws).run evs).sent ≤ ws.length := by
+  have hi := delInv_run (delInv_init ws hq) evs
+  refine ⟨(hi.each k l hk).2.2.2, ?_⟩
+  have := hi.sent_le
+  rw [DelSt.run_length] at this
+  simpa [initDel] using this
+
+/-- **Shutdown completes under every fair schedule**: `P + 1` fair rounds (any order inside a round) and no
+process of the pool runs any more and no queue holds anything. -/
+theorem shutdown_completes_under_every_fair_schedule (ws : List (Worker α)) (hq : Quiescent ws) (evs : List Nat)
+    (hfair : ws.length + 1 ≤ fairRounds ws.length evs) : ((initDel ws).run evs).down = true := by
+  obtain ⟨a, b, he, ha, hb⟩ := fair_split_phases ws.length ws.length evs hfair
+  rw [he]
+  apply down_of_gone
+  exact shutdown_phases ws hq a b ha (fun k hk => hb (k + 1) (List.mem_range.mpr (by omega)))
+
+/-- **Fairness is needed** for the second half: a process that is never served again stays (its
+`StopCommand` stays queued), whatever else happens. -/
+theorem shutdown_unserved_process_stays (evs : List Nat) (h : 1 ∉ evs) :
+    ∃ l, ((initDel (newPool 1 : List (Worker Nat))).run evs).ws[0]? = some l ∧ l.alive = true :=
+  aliveK_run evs _ ⟨_, rfl, rfl⟩ h
+
+/-- **A `map` call — returned or raised — followed by `__del__`**: whatever the two schedules, no result is
+left anywhere during shutdown, and a fair shutdown schedule ends with every process gone and every queue
+empty. -/
+theorem map_then_shutdown (ws : List (Worker α)) (js : List (Res α)) (evs dels : List Nat)
+    (hq : Quiescent ws) (hp : ws ≠ []) (hf : ((initMap ws js).run evs).finished = true) :
+    ((initDel ((initMap ws js).run evs).ws).run dels).results = 0 ∧
+      (ws.length + 1 ≤ fairRounds ws.length dels →
+        ((initDel ((initMap ws js).run evs).ws).run dels).down = true) := by
+  obtain ⟨h1, _, h3⟩ := map_no_leftover ws js evs hq hp hf
+  refine ⟨(shutdown_leaves_no_result _ h1 dels).1, ?_⟩
+  intro hfair
+  rw [← h3] at hfair
+  exact shutdown_completes_under_every_fair_schedule _ h1 dels hfair
+
+/-- the function the driver executes for a whole pool session (start, batches, `__del__`) -/
+theorem poolSession_spec (P fuel : Nat) (hP : 0 < P) (bs : List (List (Res α) × List Nat)) (dels : List Nat)
+    (hf : ∀ s ∈ runBatches fuel (newPool P) bs, s.finished = true) :
+    (poolSession P fuel bs dels).results = 0 ∧
+      (P + 1 ≤ fairRounds P dels → (poolSession P fuel bs dels).down = true) := by
+  obtain ⟨hq0, hl0⟩ := pool_startup_quiescent (α := α) P
+  have hp0 : (newPool P : List (Worker α)) ≠ [] := by
+    intro e; rw [e] at hl0; simp at hl0; omega
+  obtain ⟨h1, h2⟩ := runBatches_last fuel bs (newPool P) hq0 hp0 hf
+  rw [hl0] at h2
+  refine ⟨(shutdown_leaves_no_result _ h1 dels).1, ?_⟩
+  intro hfair
+  rw [← h2] at hfair
+  exact shutdown_completes_under_every_fair_schedule _ h1 dels hfair
+
+/-- **`Process.run_jobs`: one stop token per worker that has not left**, at every point of every schedule
+(stop-token worker loop).  In particular no worker can be left without a token to take, and none is taken
+twice. -/
+theorem runjobs_stop_tokens_match_live_workers (P : Nat) (js : List (Res α)) (evs : List Ev) :
+    stopTokens ((initRun {} P js).run evs).jobQ = liveWorkers ((initRun {} P js).run evs).ws :=
+  (stopsMatch_run (stopsMatch_init P js) evs).2
+
+/-- when `run_jobs` has left its loop (normally or on the way to raising `AssertionError`) nothing but those
+stop tokens is on the shared queue and no result is queued or held anywhere -/
+theorem runjobs_leaves_only_stop_tokens (P : Nat) (js : List (Res α)) (evs : List Ev)
+    (hd : ((initRun {} P js).run evs).done = true) :
+    jobsOf ((initRun {} P js).run evs).jobQ = [] ∧ rpipes ((initRun {} P js).run evs).ws = [] ∧
+      stopTokens ((initRun {} P js).run evs).jobQ = liveWorkers ((initRun {} P js).run evs).ws :=
+  ⟨(runjobs_yields_every_result_once {} P js evs rfl hd).2.1, (runjobs_yields_every_result_once {} P js evs rfl hd).2.2,
+   runjobs_stop_tokens_match_live_workers P js evs⟩
+
 /-! ## non-vacuity: concrete runs meeting the hypotheses -/
 
 /-- three workers, five inputs with a failure in the middle, an adversarial schedule: finished, ordered -/
@@ -292,5 +488,32 @@ example :
 example :
     let s := runJobs {} 2 [Res.ok 1, Res.err 2, Res.ok 3] [⟨2, false⟩, ⟨2, false⟩, ⟨0, false⟩, ⟨1, false⟩] 50
     s.done = true ∧ s.yielded.length = 3 ∧ s.raised = true ∧ s.performed = [0, 1, 2] := by decide
+
+/-- a schedule meeting the fairness hypothesis: 17 rounds in which the second worker comes first, the caller
+second; `map` over two inputs on two workers has finished at its end (and in fact much earlier) -/
+example :
+    mapRoundBound 2 2 ≤ fairRounds 2 (List.replicate 17 [2, 0, 1]).flatten ∧
+      (mapExact (newPool 2) [Res.ok 5, Res.err 6] (List.replicate 17 [2, 0, 1]).flatten).finished = true ∧
+      (mapExact (newPool 2) [Res.ok 5, Res.err 6] (List.replicate 4 [2, 0, 1]).flatten).output = ⟨[5], some 6⟩ := by
+  decide +kernel
+
+/-- an unfinished state and a fair round from it: the variant goes down (here from 10 to 7) -/
+example :
+    ((initMap (newPool 2) [Res.ok 0, Res.ok 1]).run [0, 0, 1]).finished = false ∧
+      ((initMap (newPool 2) [Res.ok 0, Res.ok 1]).run [0, 0, 1]).phi = 10 ∧
+      ((initMap (newPool 2) [Res.ok 0, Res.ok 1]).run ([0, 0, 1] ++ [2, 0, 1])).phi = 7 := by decide
+
+/-- a session with a failing batch, then `__del__` along a schedule that serves the second process first: both
+processes have left, nothing is queued; before the workers are served the two `StopCommand`s are queued -/
+example :
+    (poolSession 2 50 [([Res.ok 1, Res.err 2, Res.ok 3], [0, 0, 2, 2, 0])] [2, 0, 1, 0, 2, 1, 2, 0, 1]).down = true ∧
+      3 ≤ fairRounds 2 [2, 0, 1, 0, 2, 1, 2, 0, 1] ∧
+      (poolSession 2 50 [([Res.ok 1, Res.err 2, Res.ok 3], [0, 0, 2, 2, 0])] [0, 0]).queued = 2 ∧
+      (poolSession 2 50 [([Res.ok 1, Res.err 2, Res.ok 3], [0, 0, 2, 2, 0])] [0, 0]).aliveCount = 2 := by decide
+
+/-- `run_jobs` midway: one worker has left with its token, one token and one live worker remain -/
+example :
+    let s := (initRun {} 2 [Res.ok (1 : Nat)]).run [⟨1, false⟩, ⟨2, false⟩]
+    stopTokens s.jobQ = 1 ∧ liveWorkers s.ws = 1 := by decide
 
 end AF.C14
